@@ -272,17 +272,18 @@ def chunk_count_selection(ctx, rule, bindings=None):
                         elif vals == ['otherwise'] and 0 in explicit:
                             zero_test = False
                         continue
-                    if cond[0] == 'bin' and cond[1] in ('Eq', 'Ne') and q.const_val(cond[3]) == 0:
-                        sub, _ = layout.unwrap_value(cond[2])
-                        which = bindings.get(sub[3], ('', ''))[1] if layout.is_read_term(sub) else None
-                        truth = q.bool_outcome(pf, a, vals)
-                        if truth is None:
+                    # a comparison of the new field with a constant, in any spelling that means `== 0` / `!= 0` for an unsigned value
+                    # (`== 0`, `< 1`, `<= 0`, `!(> 0)`, mirrored).  Only the test on the new field is accepted: `old == 0xFFFF -> new,
+                    # else old` is the file format's wording but not the same function (old = 0, new = N reads no chunk; seed C07-g)
+                    for op_, l_, r_ in q.holds_both(cond, q.bool_outcome(pf, a, vals)):
+                        sub, _ = layout.unwrap_value(l_)
+                        k_ = q.const_val(r_)
+                        if not (layout.is_read_term(sub) and bindings.get(sub[3], ('', ''))[1] == 'new_chunks' and isinstance(k_, int)):
                             continue
-                        eq = truth if cond[1] == 'Eq' else (not truth)
-                        # only the test on the new field is accepted: `old == 0xFFFF -> new, else old` is the file format's wording
-                        # but not the same function (old = 0, new = N reads no chunk at all; seed C07-g)
-                        if which == 'new_chunks':
-                            zero_test = eq
+                        if (op_, k_) in (('Eq', 0), ('Lt', 1), ('Le', 0)):
+                            zero_test = True
+                        elif (op_, k_) in (('Ne', 0), ('Ge', 1), ('Gt', 0)):
+                            zero_test = False
                 got[nm] = (zero_test, [c_ for c_ in layout.casts_on(t)[0]] if t[0] == 'cast' else [])
             ok = set(got) == {'old_chunks', 'new_chunks'} and got['old_chunks'][0] is True and got['new_chunks'][0] is False and \
                 all(layout.value_preserving(a, b_) for a, b_ in got['old_chunks'][1])
